@@ -48,13 +48,15 @@ class HarnessError(Exception):
 class Res:
     """Result of checking one case."""
 
-    __slots__ = ("v", "nt", "cls", "note")
+    __slots__ = ("v", "nt", "cls", "note", "n", "nt_keys")
 
     def __init__(self) -> None:
         self.v: list[tuple[str, str]] = []
         self.nt = False
         self.cls: list[str] = []
         self.note: Any = None
+        self.n = 1  # number of executions this case stands for (e.g. crash points tried)
+        self.nt_keys: list | None = None  # distinct non-trivial sub-cases (hashed with the case)
 
     def fail(self, sig: str, detail: Any = "") -> None:
         d = detail if isinstance(detail, str) else repr(detail)
@@ -109,6 +111,12 @@ class Collector:
 
     def run_case(self, case: Any, phase: str = "gen") -> Res | None:
         self.evaluations += 1
+        res = self._run_case(case, phase)
+        if res is not None and res.n > 1:
+            self.evaluations += res.n - 1
+        return res
+
+    def _run_case(self, case: Any, phase: str = "gen") -> Res | None:
         signal.setitimer(signal.ITIMER_REAL, CASE_TIMEOUT_S)
         try:
             res = self.mod.check(case)
@@ -133,6 +141,10 @@ class Collector:
             signal.setitimer(signal.ITIMER_REAL, 0)
         for c in res.cls:
             self.classes[c] += 1
+        if res.nt_keys:
+            h0 = case_hash(case)
+            for kx in res.nt_keys:
+                self.nontrivial.add(hash((h0, kx)) & 0xFFFFFFFFFFFFFFFF)
         if res.nt:
             h = case_hash(case)
             if h not in self.nontrivial:
